@@ -208,6 +208,18 @@ def exec_bytes(case):
     out = Outcome()
     t = gen.apply_layout(byte_tensor(case["shape"], case["fill"], case["seed"]), case["layout"])
     check_routes(out, t, case["bits"], "bytes")
+    if not out.failures and case["seed"] % 2 == 0:
+        # the same bytes held as SIGNED bytes (a payload reloaded as int8): what such a tensor unpacks to is not specified, but
+        # "every implementation returns identical results on every byte tensor" -- the routes that accept it agree
+        ti = t.view(torch.int8)
+        got = {name: cut(fn, ti, case["bits"]) for name, fn in ROUTES.items()}
+        ok = {n_: g_ for n_, g_ in got.items() if not isinstance(g_, Raised)}
+        names_ = sorted(ok)
+        for n_ in names_[1:]:
+            a_, b_ = ok[names_[0]], ok[n_]
+            if a_.dtype != b_.dtype or tuple(a_.shape) != tuple(b_.shape) or not torch.equal(a_, b_):
+                out.fail(f"bytes/int8/routes-disagree", f"unpack routes {names_[0]} and {n_} return different results on an int8 byte tensor (bits={case['bits']}, shape {list(t.shape)})")
+                break
     out.nontrivial = (not t.is_contiguous()) or len(case["shape"]) != 2
     out.fingerprint = [case["bits"], case["shape"], case["layout"][0], case["fill"] if isinstance(case["fill"], int) else case["seed"] % 7]
     out.klass = [f"layout-{case['layout'][0]}", f"rank{len(case['shape'])}", "noncontig" if not t.is_contiguous() else "contig"]
